@@ -1,4 +1,5 @@
 #include "interp.hpp"
+#include <sys/mman.h>
 
 Probes g_probes;
 Coverage g_cover;
@@ -148,7 +149,10 @@ struct Exec {
         case OP_PENC: case OP_PDEC:
             if (!is_par(k)) return false;
             if (k == PM && o.code == OP_PDEC) return false;
-            if (o.flags & (F_NULLA | F_NULLOUT | F_NULLB)) return false;
+            if (o.flags & (F_NULLA | F_NULLOUT)) return false;
+            // a NULL tweak array (Mantis) has no documented meaning on a live object; on an object that must refuse the call
+            // anyway (NULL, zeroed, failed init, cleaned up) the arguments are never looked at, so the call is defined: 0
+            if ((o.flags & F_NULLB) && !(nobj || (st.life != L_INIT && st.life != L_RAW))) return false;
             if (nobj) return true;
             if (st.life == L_RAW) return false;
             if (st.life == L_INIT && !st.keyed) return false;
@@ -222,7 +226,7 @@ struct Exec {
             pin = place_arg(A_IN, o.a, (o.place >> 8) & 255);
             if (o.flags & F_INPLACE) pout = pin;
             else { outfill.assign(outlen, (uint8_t)(fillb ^ 0xFF)); pout = place_arg(A_OUT, outfill, o.place & 255); }
-            if (k == PM) pb = place_arg(A_AUX, o.b, (o.place >> 16) & 255 ? (o.place >> 16) & 255 : MEM_END_FLUSH);
+            if (k == PM) pb = (o.flags & F_NULLB) ? nullptr : place_arg(A_AUX, o.b, (o.place >> 16) & 255 ? (o.place >> 16) & 255 : MEM_END_FLUSH);
             if (o.flags & F_NULLA) pin = nullptr;
             if (o.flags & F_NULLOUT) pout = nullptr;
             break;
@@ -295,7 +299,21 @@ struct Exec {
             if ((o.flags & F_JUNKREGS) || cfg.use_junk_regs) ok = GUARDED_CALL_DIRTY(stackpat, ret = (int)call_with_junk_regs(lib_init_fn(k), obj, stackpat));
             else ok = GUARDED_CALL_DIRTY(stackpat, ret = lib_init(k, obj));
             break;
-        case OP_CLEANUP: ok = GUARDED_CALL_DIRTY(stackpat, lib_cleanup(k, obj)); break;
+        case OP_CLEANUP: {
+            // cleanup of an object that is not live (zeroed, failed init, already cleaned up) "does nothing": for the duration of
+            // the call its storage is read-only, so even a store of the value that is already there shows (an inert object may
+            // sit in a constant, or be torn down by several threads)
+            bool inert = obj && st.life != L_INIT && on(CK_HEAP);
+            if (inert) mprotect(g_handles.slot_page(o.slot), 8192, PROT_READ);
+            ok = GUARDED_CALL_DIRTY(stackpat, lib_cleanup(k, obj));
+            if (inert) mprotect(g_handles.slot_page(o.slot), 8192, PROT_READ | PROT_WRITE);
+            if (inert && !ok && g_crash.addr >= (uintptr_t)st.h && g_crash.addr < (uintptr_t)st.h + st.hsize) {
+                ob.crashed = true; log.ev("crash", i, g_crash.sig);
+                violate("cleanup-wrote-inert-object", strf("%s: cleanup of an object that is not live stored into it (offset %zu of the handle); it has to do nothing", op_brief(plan, o).c_str(), (size_t)(g_crash.addr - (uintptr_t)st.h)));
+                return;
+            }
+            break;
+        }
         case OP_ZERO: memset(st.h, 0, st.hsize); ok = true; break;
         case OP_SETKEY: ok = GUARDED_CALL_DIRTY(stackpat, ret = lib_setkey(k, obj, pa, o.size, o.rounds, o.mode)); break;
         case OP_SETTKEY: ok = GUARDED_CALL_DIRTY(stackpat, ret = lib_settkey(k, obj, pa, o.size)); break;
